@@ -119,7 +119,7 @@ func cmdRun(args []string) {
 		wg.Add(1)
 		go func() {
 			defer wg.Done()
-			opts := sym.Options{Solver: "z3", Regions: regions, LoopBound: spec.LoopBound, TimeoutMs: spec.TimeoutMs, KeepTapes: 3}
+			opts := sym.Options{Solver: "z3", Regions: regions, LoopBound: spec.LoopBound, TimeoutMs: spec.TimeoutMs, KeepTapes: 3, AssertPrefix: spec.ID + "."}
 			if *tier == "thorough" {
 				opts.Cross = []string{"cvc5", "z3-new"}
 			}
